@@ -42,7 +42,26 @@ def herm(M):
     return np.abs(M - M.conj().T).max()
 
 
-def whitener_facts(ck, A, alpha, tag, pred_eig=None, n=None, dask=False, tol=1e-8):
+def whitener_facts(ck, A, alpha, tag, **kw):
+    """Valid input: an exception raised by the transformer is a violation, not a machinery failure."""
+    try:
+        _whitener_facts(ck, A, alpha, tag, **kw)
+    except common.MachineryError:
+        raise
+    except Exception as e:  # noqa
+        ck.d(False, "C16", "C16_Raised", f"{tag}: Whitener raised {type(e).__name__}: {str(e)[:150]}")
+
+
+def pca_facts(ck, A, n_modes, tag, **kw):
+    try:
+        _pca_facts(ck, A, n_modes, tag, **kw)
+    except common.MachineryError:
+        raise
+    except Exception as e:  # noqa
+        ck.d(False, "C16", "C16_Raised", f"{tag}: PCA raised {type(e).__name__}: {str(e)[:150]}")
+
+
+def _whitener_facts(ck, A, alpha, tag, pred_eig=None, n=None, dask=False, tol=1e-8):
     """A: centred matrix (n x p), full column rank."""
     n, p = A.shape
     X = da2(A, {"sample": max(2, n // 3), "feature": -1} if dask else None)
@@ -91,7 +110,7 @@ def whitener_facts(ck, A, alpha, tag, pred_eig=None, n=None, dask=False, tol=1e-
          f"{tag}: patterns mapped out of and into the whitened space do not come back unchanged")
 
 
-def pca_facts(ck, A, n_modes, tag, Vlead=None, dask=False):
+def _pca_facts(ck, A, n_modes, tag, Vlead=None, dask=False):
     n, p = A.shape
     X = da2(A, {"sample": max(2, n // 3), "feature": -1} if dask else None)
     with warnings.catch_warnings():
@@ -165,6 +184,7 @@ def generic(rep, a):
                 pca_facts(ck, A, 0.99, f"generic PCA 0.99 cond={cond:g}")
     rep.m_facts += ck.M
     rep.p_facts += ck.P
+    rep.d_facts += ck.D
     rep.traces += n_cases
     rep.extra["generic_cases"] = n_cases
     return [(p, c, m, dict(kind="generic")) for (p, c, m) in ck.found]
